@@ -183,15 +183,18 @@ class Engine(CallMixin):
         # raises: exactly-when -> on a normal path none of the conditions holds
         raises = c.raises(env_old) if c.raises else {}
         for names, cond in raises.items():
+            if isinstance(names, tuple) and names and names[0] == "?":
+                continue        # "may raise": no claim on normal paths
             nm = names if isinstance(names, str) else "|".join(names)
             self.oblige(st, f"no-{nm}-on-normal-path", "raises", Not(And(*_aslist(cond))), fi.node)
         # result sort
-        if c.result is not None:
-            ok = self.result_conforms(st, c.result, result)
+        rsort = c.result(env_old) if callable(c.result) else c.result
+        if rsort is not None:
+            ok = self.result_conforms(st, rsort, result)
             if ok is not True:
                 self.oblige(st, "result-sort", "ensures", ok, fi.node)
-            result = self.coerce_result(st, c.result, result)
-        elif result is not None:
+            result = self.coerce_result(st, rsort, result)
+        elif result is not None and c.result is None:
             self.oblige(st, "result-is-none", "ensures", self.identical(st, result, None, fi.node), fi.node)
         env.set_result(result)
         if c.ghost_exit is not None:
@@ -218,9 +221,9 @@ class Engine(CallMixin):
         matched = None
         for names, cond in raises.items():
             names_t = names if isinstance(names, tuple) else (names,)
-            if any(exc.cls == n or exc_is_a(exc.cls, n) for n in names_t):
-                matched = (names_t, And(*_aslist(cond)))
-                break
+            if any(exc.cls == n or exc_is_a(exc.cls, n) for n in names_t if n != "?"):
+                c1 = And(*_aslist(cond))
+                matched = (names_t, c1 if matched is None else Or(matched[1], c1))
         if matched is None:
             self.oblige(st, f"undeclared-{exc.cls}", "raises", False, fi.node)
             return
@@ -408,6 +411,13 @@ class Engine(CallMixin):
             if isinstance(v, Tup):
                 return True
             return isinstance(v, Ref) and st.obj(v).kind == "list"
+        if k == "listof":
+            if isinstance(v, Ref) and st.obj(v).kind == "list":
+                items = st.obj(v).get("items")
+                if any(isinstance(x, Seg) for x in items) or len(items) != sort.arg2:
+                    return False
+                return And(*[self.result_conforms(st, sort.arg, x) for x in items])
+            return False
         if k == "rows_upto":
             if isinstance(v, Tup):
                 return len(v.items) <= sort.arg
@@ -419,6 +429,8 @@ class Engine(CallMixin):
             return isinstance(v, ADT) and v.family == sort.arg
         if k == "rec":
             return isinstance(v, Rec) and v.name == sort.arg
+        if k in ("anyval", "anylist", "anyobj"):
+            return True
         if k in self.reg.models and hasattr(self.reg.models[k], "conforms"):
             return self.reg.models[k].conforms(self, st, sort, v)
         return True
